@@ -157,6 +157,17 @@ CHECKS["C14"] = dict(
           "the implementation only (partial: no model of those formats)."),
     design="6/C14", technique="Coq proof over token-stream codec model (list induction) + vm_compute correspondence + round-trip oracles")
 
+CHECKS["C16"] = dict(
+    text=("Theorems over R about the Gallina model of level_length / level_path, for every mesh, function and level: in each of the "
+          "crossing patterns the isolated corner is chosen and uncrossed triangles are skipped; each computed point is a convex "
+          "combination strictly inside a mesh edge where the interpolant equals the level, independent of edge direction; level_length "
+          "(one level or an array) = sum over triangles of the segment between the two crossed edges (independent spec); level_path "
+          "returns exactly that length for all options (unique-edge table lookups proved correct); non-scalar input gives ValueError. "
+          "Path order, common/reported triangle, merging at 1e-3 and arc-length resampling are modelled (walk along the path graph "
+          "standing for shortest_path+argsort; np.interp/linspace) and decided by correspondence plus brute-force oracles; no theorem "
+          "for them yet (partial)."),
+    design="6/C16", technique="Coq proof over R (case analysis on crossing patterns, field) + vm_compute correspondence at binary64")
+
 NOT_YET = {}
 
 
